@@ -282,6 +282,15 @@ class Ctx:
         env["VERIF_SEED"] = str(self.seed)
         env["VERIF_TIER"] = self.tier
         env["VERIF_SCRATCH"] = self.scratch
+        env["VERIF_REPO"] = REPO
+        if REPO != "/repo":
+            # mutation testing against a scratch copy of the repository: alternate go.mod with the replace redirected
+            alt = os.path.join(self.scratch, "go.alt.mod")
+            if not os.path.exists(alt):
+                src = open(os.path.join(VERIF, "harness", "go.mod")).read().replace("=> /repo", "=> " + REPO)
+                open(alt, "w").write(src)
+                shutil.copy(os.path.join(VERIF, "harness", "go.sum"), os.path.join(self.scratch, "go.alt.sum"))
+            env["GOFLAGS"] = "-mod=mod -modfile=" + alt
         if extra:
             env.update({k: str(v) for k, v in extra.items()})
         return env
@@ -400,8 +409,9 @@ class Ctx:
         ev = {"property_id": self.pid, "tier": self.tier, "seed": self.seed, "level": self.level,
               "coverage": cov, "assumptions": self.assumptions, "wall_s": round(time.time() - self.t0, 1),
               "violations": len(real)}
-        os.makedirs(os.path.join(VERIF, "evidence"), exist_ok=True)
-        with open(os.path.join(VERIF, "evidence", self.pid + ".json"), "w") as fh:
+        evdir = os.path.join(VERIF, "evidence") if REPO == "/repo" else os.environ.get("VERIF_EVIDENCE_DIR", "/tmp/verif_mut_evidence")
+        os.makedirs(evdir, exist_ok=True)
+        with open(os.path.join(evdir, self.pid + ".json"), "w") as fh:
             json.dump(ev, fh, indent=1, default=str)
         shutil.rmtree(self.scratch, ignore_errors=True)
         self.log("done rc=%d states=%d transitions=%d impl_cases=%d distinct=%d violations=%d known=%d"
